@@ -9,3 +9,27 @@ def run(ctx: Ctx) -> None:
     ctx.floor("T6x.call-fresh", 16)
     ctx.floor("T6x.replace-fresh", 16)
     ctx.floor("T6x.regrid", 8)
+
+
+def mutants(prog):
+    from .common import source_sub
+    B, P, N, S = "deepali.spatial.base", "deepali.spatial.parametric", "deepali.spatial.nonrigid", "deepali.spatial.bspline"
+    specs = [
+        ("data_ keeps buffers", P, "ParametricTransform.data_", "self.clear_buffers()\n    return self", "return self", "T6x."),
+        ("data_ clears only for Parameter", P, "ParametricTransform.data_", "        self.params = arg\n    self.clear_buffers()", "        self.params = arg\n        self.clear_buffers()", "T6x."),
+        ("condition_ keeps buffers", B, "SpatialTransform.condition_", "self.clear_buffers()\n    self._args = args", "self._args = args", "T6x."),
+        ("grid_ keeps buffers", B, "SpatialTransform.grid_", "self.clear_buffers()\n", "", "T6x."),
+        ("clear_buffers forgets v", B, "NonRigidTransform.clear_buffers", "for name in ('u', 'v'):", "for name in ('v',):", "T6x."),
+        ("tensor does not update", B, "NonRigidTransform.tensor", "u = getattr(self.update(), 'u', None)", "u = getattr(self, 'u', None)", "T6x."),
+        ("svf update keeps stale u", N, "StationaryVelocityFieldTransform.update", "u = self.exp(v)", "u = getattr(self, 'u', None)\n    if u is None:\n        u = self.exp(v)", "T6x."),
+        ("ffd update keeps stale u", S, "FreeFormDeformation.update", "u = self.evaluate_spline()", "u = getattr(self, 'u', None)\n    if u is None:\n        u = self.evaluate_spline()", "T6x."),
+        ("callable parameters not refreshed", P, "ParametricTransform.update", "p = self._data()", "p = self.p", "T6x."),
+        ("dense regrid: axes before sample", N, "DenseVectorFieldTransform.grid_", "flow = flow.sample(self.data_grid(grid))\n        flow = flow.axes(grid_axes)", "flow = flow.axes(grid_axes)\n        flow = flow.sample(self.data_grid(grid))", "T6x.regrid"),
+        ("dense regrid: no resampling", N, "DenseVectorFieldTransform.grid_", "flow = flow.sample(self.data_grid(grid))\n        flow = flow.axes(grid_axes)", "flow = flow.axes(grid_axes)", "T6x.regrid"),
+        ("svf regrid keeps exp convention", N, "StationaryVelocityFieldTransform.grid_", "self.exp.align_corners = grid.align_corners()", "pass", "T6x."),
+        ("ffd refine crop", S, "BSplineTransform.grid_", "new_params = new_params.narrow(dim, 1, new_shape[dim])", "new_params = new_params.narrow(dim, 0, new_shape[dim])", "T6x.regrid"),
+        ("update hook not registered", B, "SpatialTransform.register_update_hook", "self._update_hook_handle = self.register_forward_pre_hook(self._update_hook)", "self._update_hook_handle = None", "T6x."),
+    ]
+    for name, mod, fn, old, new, expect in specs:
+        ov = source_sub(prog, mod, fn, old, new)
+        yield (name if ov is not None else name + " [spec does not apply]", ov, expect)
